@@ -27,6 +27,10 @@ func gen(t *rapid.T) Case {
 	return Case{Project: jgen.GenProject(t, jgen.Opts{Bodies: true, MultiByte: true, Interfaces: true, MaxUnits: 4, MaxMethods: 4})}
 }
 
+func genScoped(t *rapid.T) Case {
+	return Case{Project: jgen.GenProject(t, jgen.Opts{Bodies: true, ScopedReuse: true, MaxUnits: 3, MaxMethods: 4})}
+}
+
 func check(c Case) pbt.Verdict {
 	dir := cli.Scratch("c02-")
 	defer os.RemoveAll(dir)
@@ -185,6 +189,9 @@ func init() {
 		"resolution is asserted only for the receiver kinds the statement lists; this., for-each, lambda, static and chained receivers are checked for name/position/order only",
 		"array creations (`new int[3]`) are written but are not object creations and must not be recorded")
 	pbt.Register("callsites", 400, 3000, gen, check)
+	// the same oracle on units whose methods reuse parameter / local names with different types
+	// and shadow fields: a receiver name denotes the declaration visible at the call site
+	pbt.Register("scoped_names", 300, 2000, genScoped, check)
 }
 
 func TestProp(t *testing.T)   { pbt.Main(t) }
